@@ -54,20 +54,30 @@ type inputInfo struct {
 	MainStarts int  // start elements tokenised before the first error
 	MainClean  bool // main part tokenises to EOF without error
 	TransDoc   bool // a {transitional}document start element was tokenised (before any error)
-	Tables     []tblInfo
+	NTables    int
+	AnyNoGrid  bool // some w:tbl without a w:tblGrid child
+	AnyGrid    bool // some w:tbl with a w:tblGrid child
+	AnyRows    bool // some w:tbl with a w:tr child
+	AnyRagged  bool // some w:tbl whose rows differ in their number of w:tc children
 	// a graphic / pic start element that does not itself declare the drawingml main / picture namespace
 	UndeclaredDrawing bool
 	CTClass           string // "std" | "fallback" | "other"
 	RelsClass         string
 }
 
-func (in *inputInfo) anyTable(pred func(tblInfo) bool) bool {
-	for _, t := range in.Tables {
-		if pred(t) {
-			return true
-		}
+func (in *inputInfo) fold(t *tblInfo) {
+	in.NTables++
+	if t.HasGrid {
+		in.AnyGrid = true
+	} else {
+		in.AnyNoGrid = true
 	}
-	return false
+	if len(t.Rows) > 0 {
+		in.AnyRows = true
+	}
+	if t.ragged() {
+		in.AnyRagged = true
+	}
 }
 
 // rootCompletes reports whether the first element of data is read to its end tag without a decoder error
@@ -134,7 +144,7 @@ func analyse(b []byte) *inputInfo {
 	dec := xml.NewDecoder(bytes.NewReader(main))
 	type frame struct {
 		local string
-		tbl   int // index into in.Tables when local == "tbl"
+		tbl   *tblInfo // the table this tbl / tblGrid / tr frame belongs to
 	}
 	var stack []frame
 	for {
@@ -155,35 +165,42 @@ func analyse(b []byte) *inputInfo {
 			if t.Name.Local == "graphic" && !declares(t, nsA) || t.Name.Local == "pic" && !declares(t, nsPic) {
 				in.UndeclaredDrawing = true
 			}
-			f := frame{local: t.Name.Local, tbl: -1}
+			f := frame{local: t.Name.Local}
 			if len(stack) > 0 {
 				p := stack[len(stack)-1]
 				switch {
 				case t.Name.Local == "tblGrid" && p.local == "tbl":
-					in.Tables[p.tbl].HasGrid = true
-					in.Tables[p.tbl].GridCols = 0 // the reader starts a new grid at every w:tblGrid
+					p.tbl.HasGrid = true
+					p.tbl.GridCols = 0 // the reader starts a new grid at every w:tblGrid
 					f.tbl = p.tbl
-				case t.Name.Local == "gridCol" && p.local == "tblGrid" && p.tbl >= 0:
-					in.Tables[p.tbl].GridCols++
+				case t.Name.Local == "gridCol" && p.local == "tblGrid" && p.tbl != nil:
+					p.tbl.GridCols++
 				case t.Name.Local == "tr" && p.local == "tbl":
-					in.Tables[p.tbl].Rows = append(in.Tables[p.tbl].Rows, 0)
+					if len(p.tbl.Rows) < 1<<16 {
+						p.tbl.Rows = append(p.tbl.Rows, 0)
+					}
 					f.tbl = p.tbl
-				case t.Name.Local == "tc" && p.local == "tr" && p.tbl >= 0:
-					r := in.Tables[p.tbl].Rows
+				case t.Name.Local == "tc" && p.local == "tr" && p.tbl != nil:
+					r := p.tbl.Rows
 					r[len(r)-1]++
 				}
 			}
-			if t.Name.Local == "tbl" && len(in.Tables) < 4096 {
-				in.Tables = append(in.Tables, tblInfo{})
-				f.tbl = len(in.Tables) - 1
-			} else if t.Name.Local == "tbl" {
-				f.local = "tbl-overflow"
+			if t.Name.Local == "tbl" {
+				f.tbl = &tblInfo{}
 			}
 			stack = append(stack, f)
 		case xml.EndElement:
 			if len(stack) > 0 {
+				if f := stack[len(stack)-1]; f.local == "tbl" {
+					in.fold(f.tbl)
+				}
 				stack = stack[:len(stack)-1]
 			}
+		}
+	}
+	for _, f := range stack { // tables left open by a truncated / ill-formed part
+		if f.local == "tbl" {
+			in.fold(f.tbl)
 		}
 	}
 	return in
@@ -195,6 +212,27 @@ const (
 	maxTablesEdited = 6
 	maxCellsVisited = 3000
 )
+
+// textCost estimates the bytes copied by the library's run-by-run string concatenation when the text of every
+// cell of the table is read once (public fields only): per cell, total text length x number of runs.
+func textCost(t *document.Table) int {
+	cost := 0
+	for r := range t.Rows {
+		for c := range t.Rows[r].Cells {
+			runs, bytes := 0, 0
+			for _, p := range t.Rows[r].Cells[c].Paragraphs {
+				runs += len(p.Runs)
+				for i := range p.Runs {
+					bytes += len(p.Runs[i].Text.Content) + 1
+				}
+			}
+			cost += runs * bytes / 2
+		}
+	}
+	return cost
+}
+
+const maxTextCost = 150 << 20
 
 // hugeSpan: cell (0,0) carries a gridSpan above 2000 (public fields only).
 func hugeSpan(t *document.Table) bool {
@@ -370,6 +408,12 @@ func (j *judge) followUp(doc *document.Document) {
 		rows, cols := 0, 0
 		rd("GetRowCount", func() { rows = t.GetRowCount() })
 		rd("GetColumnCount", func() { cols = t.GetColumnCount() })
+		if textCost(t) > maxTextCost {
+			// tens of thousands of runs in one cell: reading its text is quadratic in the library (seconds per call, not a
+			// panic); the text-reading accessors are skipped by precondition, never judged by a deadline
+			res.Count("skipped:text-accessors-huge-cell", 1)
+			goto edits
+		}
 		rd("GetCellText(all)", func() {
 			n := 0
 			for r := range t.Rows {
@@ -416,6 +460,7 @@ func (j *judge) followUp(doc *document.Document) {
 				t.FindCellsByText("c", false)
 			}
 		})
+	edits:
 		rd("cell getters", func() {
 			t.GetCell(0, 0)
 			t.GetCellFormat(0, 0)
